@@ -281,8 +281,11 @@ class Gen:
     how many groups exist, which names were deployed) only to aim the ops; correctness never
     depends on the shadow."""
 
-    def __init__(self, rng, known_ops=False, dishonest=False, interleave=True, workers=WORKERS):
+    def __init__(self, rng, known_ops=False, dishonest=False, interleave=True, workers=WORKERS, crowded=False):
         self.rng = rng
+        # crowded: every group deploys the same pipeline name pinned to one worker, deploys fail half of the time and
+        # no worker leaves -- so Running and Failed copies of one name from different groups share a worker
+        self.crowded = crowded
         self.ops = []
         self.plans = []        # kind per slot: ("D", ntasks) | ("T",) | ("M",)
         self.open = []         # uncommitted slots
@@ -305,6 +308,8 @@ class Gen:
         return self.rng.choice([16, 32, 33, 34, 48, 49])
 
     def outs(self, n):
+        if self.crowded:
+            return [self.rng.chance(1, 2) for _ in range(n)]
         return [not self.rng.chance(1, 4) for _ in range(n)]
 
     def register(self, w=None):
@@ -312,7 +317,7 @@ class Gen:
         self.ops.append(["register", w, self.rng.choice([1, 2, 4]), self.rng.choice([1, 2, 3, 10, 10, 10]), 0 if not (self.dishonest and self.rng.chance(1, 4)) else self.rng.below(3)])
 
     def plan_deploy(self):
-        spec = gen_spec(self.rng)
+        spec = [[1, 1, 1]] if self.crowded and not self.rng.chance(1, 4) else gen_spec(self.rng)
         self.ops.append(["plan_deploy", spec])
         self.plans.append(("D", len(names_of(spec)), spec))
         self.open.append(len(self.plans) - 1)
@@ -333,6 +338,8 @@ class Gen:
     def random_op(self):
         r = self.rng
         x = r.below(100)
+        if self.crowded:
+            x = r.choice([35, 35, 55, 55, 55, 66, 75, 75, 22, 28])     # deploys, migrations, commits, a little clock
         if x < 8:
             self.register()
         elif x < 12:
